@@ -33,9 +33,9 @@ func (v mapSliceValue) IndexValue(index Value) Value {
 }
 
 func (v mapSliceValue) PropertyValue(index Value) Value {
-	result := v.IndexValue(index)
-	if result == nilValue && index.Interface() == sizeKey {
-		result = ValueOf(len(v.slice))
+	// (a "size" key wins over the entry count also when its value is nil, as for a map)
+	if index.Interface() == sizeKey && !v.Contains(index) {
+		return ValueOf(len(v.slice))
 	}
-	return result
+	return v.IndexValue(index)
 }
